@@ -1,6 +1,7 @@
 package props
 
 import (
+	"math"
 	"bytes"
 	"context"
 	"encoding/json"
@@ -157,6 +158,9 @@ func genFilter(t *rapid.T, evs []*mocrelay.Event) simrt.FilterSpec {
 		}
 		for i := 0; i < n; i++ {
 			f.Kinds = append(f.Kinds, rapid.SampledFrom(cacheKinds).Draw(t, "kind"))
+			if rapid.IntRange(0, 7).Draw(t, "edgek") == 0 {
+				f.Kinds[len(f.Kinds)-1] = rapid.SampledFrom(cacheEdgeKinds).Draw(t, "ekind")
+			}
 		}
 	}
 	if rapid.IntRange(0, 2).Draw(t, "f.tags") == 0 {
@@ -181,12 +185,18 @@ func genFilter(t *rapid.T, evs []*mocrelay.Event) simrt.FilterSpec {
 	}
 	if rapid.IntRange(0, 3).Draw(t, "f.since") == 0 {
 		f.Since = i64(rapid.IntRange(0, 7).Draw(t, "since"))
+		if rapid.IntRange(0, 9).Draw(t, "xsince") == 0 {
+			f.Since = i64(math.MaxInt64)
+		}
 	}
 	if rapid.IntRange(0, 3).Draw(t, "f.until") == 0 {
 		f.Until = i64(rapid.IntRange(0, 7).Draw(t, "until"))
+		if rapid.IntRange(0, 9).Draw(t, "xuntil") == 0 {
+			f.Until = i64(math.MaxInt64)
+		}
 	}
 	if rapid.IntRange(0, 1).Draw(t, "f.limit") == 0 {
-		f.Limit = i64(rapid.SampledFrom([]int{0, 1, 1, 2, 3, 100}).Draw(t, "limit"))
+		f.Limit = i64(rapid.SampledFrom([]int{0, 1, 1, 2, 3, 100, 1 << 31, math.MaxInt64}).Draw(t, "limit"))
 	}
 	return f
 }
